@@ -209,6 +209,27 @@ def public(ctx):
                         if a[int(c_)] != k_:
                             ctx.fail('lloyd_aggregation/centre-not-in-its-aggregate', 'centre %d (node %d) lies in aggregate %d' % (k_, int(c_), a[int(c_)]), cs)
                             break
+        # balanced Lloyd (connected graphs with positive weights: its documented domain): a partition whose k-th centre lies in
+        # aggregate k, for the default and for explicit numbers of rebalancing passes
+        if n >= 4 and edges:
+            ncomp_, _ = csg.connected_components(sp.csr_array(gen.graph_csr(n, edges)), directed=False)
+            if ncomp_ == 1:
+                for rb in (None, 0, 1, 3):
+                    np.random.seed(ctx.seed + it)
+                    kwb = {} if rb is None else {'rebalance_iters': rb}
+                    csb = dict(base, routine='balanced_lloyd_aggregation', rebalance_iters=rb)
+                    try:
+                        AggB, cenB = agg.balanced_lloyd_aggregation(sp.csr_array(gen.graph_csr(n, edges, weights=w)), ratio=0.4, measure='abs', **kwb)
+                    except Exception as e:   # noqa
+                        ctx.fail('balanced_lloyd_aggregation/raises', repr(e), csb)
+                        continue
+                    ctx.count('public:balanced-lloyd')
+                    ab = partition_oracle(ctx, 'balanced_lloyd_aggregation', n, AggB, None, csb)
+                    if ab is not None:
+                        for k_, c_ in enumerate(cenB):
+                            if ab[int(c_)] != k_:
+                                ctx.fail('balanced_lloyd_aggregation/centre-not-in-its-aggregate', 'centre %d (node %d) lies in aggregate %d' % (k_, int(c_), ab[int(c_)]), csb)
+                                break
         # pairwise on an M-matrix built from the graph (symmetric and nonsymmetric)
         if edges:
             for nonsym in (False, True):
